@@ -340,6 +340,7 @@ pub fn gen(r: &mut Rng, cases: usize, size: usize, extra: &[String], out: &mut O
                     ));
                 }
                 out.line(&format!("clibad {} {} {}", modes[r.usize(3)], r.usize(6), r.below(1 << 30)));
+                out.line(&format!("clicount {}", ["naive", "hybrid"][r.usize(2)]));
                 if case % 10 == 0 {
                     out.line(&format!("cliexport {}", r.below(1 << 30)));
                 }
@@ -630,6 +631,47 @@ impl Exec {
                     Ok(Some(x)) => out.line(&x),
                     Ok(None) => out.line("~ bad-request"),
                     Err(_) => out.line("~ panic"),
+                }
+                true
+            }
+            "clicount" if ws.len() == 2 => {
+                // `--counter nai`: (counter-models, models) of every condition, printed before the semantics
+                out.line(l);
+                out.flush();
+                let r = catch_unwind(AssertUnwindSafe(|| {
+                    let n = self.n;
+                    if n == 0 {
+                        return None;
+                    }
+                    let names = self.names();
+                    let mut txt = String::new();
+                    for nm in &names {
+                        txt += &format!("s({nm}).");
+                    }
+                    for (i, f) in self.acs.iter().enumerate() {
+                        txt += &format!("ac({},{}).", names[i], text(f, &names));
+                    }
+                    let file = tmp_file("cnt.adf");
+                    std::fs::write(&file, &txt).ok()?;
+                    let (code, stdout) = run_cli(&["--lib", ws[1], "--counter", "nai", file.to_str()?]);
+                    // "ModelCounts { cmodels: 1, models: 1 } …"
+                    let mut nums: Vec<String> = Vec::new();
+                    for part in stdout.split("ModelCounts").skip(1) {
+                        let digits: Vec<String> = part
+                            .split(|c: char| !c.is_ascii_digit())
+                            .filter(|x| !x.is_empty())
+                            .map(|x| x.to_string())
+                            .collect();
+                        if digits.len() >= 2 {
+                            nums.push(format!("{},{}", digits[0], digits[1]));
+                        }
+                    }
+                    Some(format!("exit={code} counts={}", if nums.is_empty() { "-".to_string() } else { nums.join(" ") }))
+                }));
+                match r {
+                    Ok(Some(x)) => out.line(&format!("= {x}")),
+                    Ok(None) => out.line("= bad-request"),
+                    Err(_) => out.line("= panic"),
                 }
                 true
             }
